@@ -217,7 +217,7 @@ def write_evidence(prop, tier, seed, results, violations, known_hits, confirmed,
     for r in results:
         for c, sat in r["covers"].items():
             if sat and c.startswith("cls:"):
-                cls.add((r["harness"].split("__")[0], c))
+                cls.add((r.get("config"), r["harness"], c))
     bound_cuts = sorted(r["harness"] for r in results if any(sat and c.startswith("[bound-cut]") for c, sat in r["covers"].items()))
     samples = []
     for r in results[:40]:
@@ -236,7 +236,7 @@ def write_evidence(prop, tier, seed, results, violations, known_hits, confirmed,
         "coverage": {
             "evaluations": len(results),
             "distinct_nontrivial": len(cls),
-            "rule": "one evaluation = one Kani harness (concrete table-pair layout; symbolic contents, arguments, callback decisions) discharged by CBMC for all values; distinct_nontrivial = number of distinct (harness family, behaviour class) pairs whose kani::cover! was SATISFIED in this run (e.g. 'insert grew the table', 'removed an old-table element')",
+            "rule": "one evaluation = one Kani harness (concrete table-pair layout; symbolic contents, arguments, callback decisions) discharged by CBMC for all values; distinct_nontrivial = number of distinct (build configuration, harness, behaviour class) triples whose kani::cover! was SATISFIED in this run (e.g. 'insert grew the table', 'removed an old-table element')",
             "samples": samples,
             "exhaustive": False,
             "technique": "bounded model checking of the compiled code (Kani 0.68 -> CBMC 6.11, CaDiCaL); verdict per harness is the solver's over all symbolic values within the bounds",
